@@ -127,7 +127,7 @@ def newV1 (v1 : Bytes) (v1opt : Nat) (blk : Bytes) : Bytes :=
 theorem save_eq (f : Bytes) (ho : Option Nat) (vmaj : Nat) (frames : Bytes) (pad : PadChoice) (v1opt : Nat) (blk : Bytes)
     (hvm : vmaj = 3 ∨ vmaj = 4) (hh : headerSize f = .ok ho) (hle : ho.getD 0 ≤ f.length) (p : Nat)
     (hp : getPadding pad (((ho.getD 0 : Nat) : Int) - (frames.length + 10 : Nat)) (f.length - ho.getD 0) = p)
-    (hd : Bytes) (hhd : header vmaj (frames.length + p) = .ok hd) :
+    (hd : Bytes) (hhd : header vmaj (frames.length + p) = .ok hd) (hfit : frames.length + p < 2 ^ 28) :
     save f vmaj frames pad v1opt blk =
       .ok (if (v1opt = 1 ∧ (findV1 (hd ++ frames ++ zeros p ++ f.drop (ho.getD 0))).getD 0 ≠ 0) ∨ v1opt = 2 then
           (hd ++ frames ++ zeros p ++ f.drop (ho.getD 0)).take
@@ -148,9 +148,14 @@ theorem save_eq (f : Bytes) (ho : Option Nat) (vmaj : Nat) (frames : Bytes) (pad
   rw [h2, hp]
   have h3 : ¬ ((p : Int) < 0) := by omega
   rw [if_neg h3]
-  have h4 : frames.length + 10 + (p : Int).toNat - 10 = frames.length + p := by simp; omega
+  have h5 : ¬ (frames.length > 2 ^ 28 - 1) := by omega
+  rw [if_neg h5]
+  have hmin : min (p : Int).toNat (2 ^ 28 - 1 - frames.length) = p := by
+    rw [Int.toNat_natCast]; omega
+  simp only [hmin]
+  have h4 : frames.length + 10 + p - 10 = frames.length + p := by omega
   rw [h4, hhd]
-  simp only [Int.toNat_natCast]
+  simp only []
   split <;> rfl
 
 /-- THE save theorem: on a well-formed layout, `ID3.save` yields: a new header whose size field
@@ -172,7 +177,7 @@ theorem save_layout (L : Layout) (h : L.OK) (vmaj : Nat) (hvm : vmaj = 3 ∨ vma
   have hdrop : L.render.drop L.tag.length = L.audio ++ L.v1 := by
     simp [Layout.render, List.append_assoc]
   rw [save_eq L.render _ vmaj frames pad v1opt blk hvm (headerSize_layout L h) (by rw [hold, hlen]; omega) p
-    (by rw [hold, hlen]; simpa using hp) _ hhd]
+    (by rw [hold, hlen]; simpa using hp) _ hhd hfit]
   rw [hold, hdrop]
   generalize magicID3 ++ [UInt8.ofNat vmaj, 0, 0] ++ [a, b, c, d] ++ frames ++ zeros p = D
   have hv1 := h.v1 D
